@@ -40,13 +40,13 @@ const TOL_CONV_REL: f64 = 1e-6;
 /// wrap congruence: distance of (a - wrapped)/(hi - lo) from an integer, per unit of (|a|+|lo|+|hi|)/(hi-lo) + 1
 const TOL_WRAP_CONG: f64 = 2e-6;
 /// sin^2 + cos^2 - 1 (property statement)
-const TOL_PYTH: f64 = 1e-5;
+const TOL_PYTH: f64 = 1e-6;
 /// sin, cos vs f64 of the same f32 radians (absolute)
-const TOL_TRIG: f64 = 1e-6;
+const TOL_TRIG: f64 = 3e-7;
 /// azimuth / altitude vs f64 atan2 (radians, modulo a turn)
 const TOL_ANGLE: f64 = 3e-6;
 /// Cartesian round trips and formula oracles, relative to |v| (or |r|)
-const TOL_CART_REL: f64 = 5e-6;
+const TOL_CART_REL: f64 = 2.5e-6;
 /// squared length must stay inside f32's normal range for the length clauses
 const MAG_LO: f64 = 1e-15;
 const MAG_HI: f64 = 1e15;
@@ -617,11 +617,11 @@ pub fn check_trig(c: &ConvCase, obs: &mut Obs) -> Check {
     ensure!(same_bits(s, s1) && same_bits(co, c1), "sin_cos-differs", "sin_cos({x:?} {}) = ({s:?}, {co:?}) but (sin, cos) = ({s1:?}, {c1:?})", unit_name(c.unit));
     let (sd, cd) = (s as f64, co as f64);
     let py = (sd * sd + cd * cd - 1.0).abs();
-    obs.max("|sin^2+cos^2-1| (tolerance 1e-5)", py);
+    obs.max("|sin^2+cos^2-1| (tolerance 1e-6)", py);
     ensure!(py <= TOL_PYTH, "sin2-cos2", "sin^2+cos^2 = {} for {x:?} {}", sd * sd + cd * cd, unit_name(c.unit));
     let r = a.to_rads() as f64;
     let e = (sd - r.sin()).abs().max((cd - r.cos()).abs());
-    obs.max("sin/cos vs f64 (tolerance 1e-6)", e);
+    obs.max("sin/cos vs f64 (tolerance 3e-7)", e);
     ensure!(e <= TOL_TRIG, "sin-cos-value", "sin, cos of {r:?} rad = ({s:?}, {co:?}), f64 gives ({:?}, {:?})", r.sin(), r.cos());
     if nt {
         obs.nontrivial(hash_of(c));
@@ -701,7 +701,7 @@ pub fn check_v2(c: &V2Case, obs: &mut Obs) -> Check {
     let bf: Vec2 = p.into();
     ensure!(same_bits(bf.x(), b.x()) && same_bits(bf.y(), b.y()), "from-impl-differs", "Vec2::from(polar) differs from to_cart()");
     let err = (b.x() as f64 - xd).hypot(b.y() as f64 - yd) / len;
-    obs.max("to_cart(to_polar(v)) error / |v| (tolerance 5e-6)", err);
+    obs.max("to_cart(to_polar(v)) error / |v| (tolerance 2.5e-6)", err);
     ensure!(err <= TOL_CART_REL, "polar-roundtrip", "({x:?}, {y:?}) -> polar ({r:?}, {:?} rad) -> ({:?}, {:?}): off by {err:.3e} of the length", az.to_rads(), b.x(), b.y());
     if x < 0.0 || y < 0.0 {
         obs.nontrivial(hash_of(c));
@@ -769,7 +769,7 @@ pub fn check_v3(c: &V3Case, obs: &mut Obs) -> Check {
     let bf: Vec3 = s.into();
     ensure!(same_bits(bf.x(), b.x()) && same_bits(bf.y(), b.y()) && same_bits(bf.z(), b.z()), "from-impl-differs", "Vec3::from(spherical) differs from to_cart()");
     let err = ((b.x() as f64 - xd).powi(2) + (b.y() as f64 - yd).powi(2) + (b.z() as f64 - zd).powi(2)).sqrt() / len;
-    obs.max("to_cart(to_spherical(v)) error / |v| (tolerance 5e-6)", err);
+    obs.max("to_cart(to_spherical(v)) error / |v| (tolerance 2.5e-6)", err);
     ensure!(
         err <= TOL_CART_REL,
         "spherical-roundtrip",
@@ -804,7 +804,7 @@ pub fn check_polar(c: &PolarCase, obs: &mut Obs) -> Check {
         return Ok(());
     }
     let err = (v.x() as f64 - want[0]).hypot(v.y() as f64 - want[1]) / rd.abs();
-    obs.max("polar to_cart vs r(cos az, sin az): error / |r| (tolerance 5e-6)", err);
+    obs.max("polar to_cart vs r(cos az, sin az): error / |r| (tolerance 2.5e-6)", err);
     ensure!(err <= TOL_CART_REL, "to_cart-formula", "polar({r:?}, {ad:?} rad).to_cart() = ({:?}, {:?}), r(cos az, sin az) = ({:?}, {:?})", v.x(), v.y(), want[0], want[1]);
     if r < 0.0 {
         obs.class("r < 0");
@@ -855,7 +855,7 @@ pub fn check_sph(c: &SphCase, obs: &mut Obs) -> Check {
         return Ok(());
     }
     let err = ((v.x() as f64 - want[0]).powi(2) + (v.y() as f64 - want[1]).powi(2) + (v.z() as f64 - want[2]).powi(2)).sqrt() / rd.abs();
-    obs.max("spherical to_cart vs r(cos az cos alt, sin alt, sin az cos alt): error / |r| (tolerance 5e-6)", err);
+    obs.max("spherical to_cart vs r(cos az cos alt, sin alt, sin az cos alt): error / |r| (tolerance 2.5e-6)", err);
     ensure!(
         err <= TOL_CART_REL,
         "to_cart-formula",
